@@ -259,14 +259,20 @@ def check(prop: str, tier: str) -> int:
             else:
                 undecided.append(f"{full}: solver answered unknown ({o.get('reason')}) on path {'/'.join(o['labels'][-6:])}")
 
-    # vanished obligations (baseline of names committed with the framework)
+    # vanished obligations (baseline of names committed with the framework): informational, unless a whole
+    # contract lost every obligation it used to generate (then its verdict would be vacuous)
+    vanished = []
     bl_path = os.path.join(ROOT, "obligations.baseline.json")
     if os.path.exists(bl_path):
         with open(bl_path) as fh:
             bl = json.load(fh).get(prop, [])
-        missing = [b for b in bl if b not in obl_names]
-        if missing and not broken:
-            undecided.append("obligations of the committed baseline were not generated: " + ", ".join(missing[:5]))
+        vanished = [b for b in bl if b not in obl_names]
+        by_contract = {}
+        for b in bl:
+            by_contract.setdefault(b.rsplit("/", 1)[0], []).append(b)
+        for cname, names in by_contract.items():
+            if all(n in vanished for n in names) and not broken and not any(cname in u for u in undecided):
+                undecided.append(f"{cname}: none of its {len(names)} baseline obligations was generated")
 
     # bounded stand-ins (never counted as proved): the property's native harness evaluates the statement
     # literally on the real code over an enumerated / sampled scenario space
@@ -356,7 +362,7 @@ def check(prop: str, tier: str) -> int:
             functions_under_contract=fn_records,
             backends=backends, solver_s=round(solver_s, 2),
             undecided=undecided, refuted=[f for f, _ in violations],
-            known_findings_hit=unrepaired, known_finding_obligations_refuted=len(known_hits),
+            vanished_baseline_obligations=vanished[:20], known_findings_hit=unrepaired, known_finding_obligations_refuted=len(known_hits),
             bounded_parts=[{k: v for k, v in b.items() if k != "failure"} for b in bounded],
             exit_code=exit_code,
             explanation="obligations = verification conditions generated by pyvc from the current /repo source "
